@@ -133,3 +133,9 @@ Example lookup_example :
   | _ => False
   end.
 Proof. vm_compute. reflexivity. Qed.
+
+From GFS Require Import AuditProofs.
+
+(** non-vacuity: every hypothesis of find_one_sound / find_one_complete_uniform proved for one concrete
+    directory with adversarial siblings, and both theorems applied to it *)
+Example lookup_theorems_apply_to_a_concrete_directory := AuditProofs.find_one_theorems_instantiated.
